@@ -272,6 +272,7 @@ ROUND10 = {
     "C07": " R-C07-NEIGHBOUR also carries the grouping of issuer keys by curve type and point (R-C16-ISSUER).",
     "C08": " R-C08-FEED also carries the truncation rows of C09; R-C08-OWN the key / flag alignment rows of C02 for the ECDSA checks.",
     "C09": " The truncation is decided under every relative order of the symbolic operands (a dependence on the hash value is seen); Hex2Bytes by value (the text itself is decoded).",
+    "C12": " R-C12-DOMAIN: Igamc arguments that combine three or more rounded terms are clamped at 0, and the divisor of the runs statistic is excluded from vanishing (frequency prerequisite of 2.3.4).",
     "C14": " A true division of an unbounded power inside a closed form (float) is a violation.",
     "C16": " R-C16-ISSUER: the issuer map is keyed by curve type and point; R-C16-ONCE also carries BatchGCD's one entry per input.",
     "C17": " R-C17-BYVALUE also carries the issuer-key grouping; R-C17-CACHE the adjacency of the giant-step windows for the requested table size.",
